@@ -735,6 +735,16 @@ Fixpoint bundle_of (link_keys : list str) (keys : list str) (code : Z) : option 
               end
   end.
 
+(* create_state_machine: the wiring of the filters.  An operation = its documented response keys, in order, each with
+   the number of links it carries (links whose target is selected).  The filters of ALL link bundles are built against
+   tuple(operation.definition.raw[responses]) = every documented key, with or without links; the matcher goes through the
+   outgoing links in document order. *)
+Definition opdef := list (str * nat).
+Definition documented_keys (op : opdef) : list str := map fst op.
+Definition outgoing_keys (op : opdef) : list str := flat_map (fun kn => repeat (fst kn) (snd kn)) op.
+Definition machine_bundle (op : opdef) (code : Z) : option str :=
+  bundle_of (outgoing_keys op) (documented_keys op) code.
+
 (* ----- reference: the OpenAPI meaning of a response key ----- *)
 Definition key_char_ok (c : N) : bool := is_digit c || N.eqb c 88 || N.eqb c 120.
 Definition wf_key (k : str) : bool :=
